@@ -113,6 +113,11 @@ def gen_plan(rng, tier, idx, opts):
             plan["ops"].append({"op": "freq", "fft": fft, "sel": sel, "blocks": rng.randint(1, 4), "seed": s()})
             if rng.random() < 0.15:
                 plan["ops"][-1]["no_fetch"] = True
+        elif r < 0.775:
+            # a frequency-domain transmission that FAILS half-way (a subcarrier index outside the FFT): the caller catches the
+            # error and goes on using the channel
+            fft = rng.choice([4, 8, 16])
+            plan["ops"].append({"op": "freq_bad", "fft": fft, "idx": [0, fft - 1, fft + rng.randint(0, 3)], "blocks": rng.randint(1, 3), "seed": s()})
         elif r < 0.87:
             if rng.random() < 0.2:      # a REJECTED setter (non-bool): the fault-like event of this world
                 plan["ops"].append({"op": "switch_bad", "v": rng.choice(["int1", "int0", "none", "np_true", "str"])})
@@ -325,6 +330,22 @@ def execute(plan):
                         break
                     switched = bool(pub)
                     log.add("switch_bad", op["v"], switched)
+                    continue
+                if o == "freq_bad":
+                    rs_ = np.random.RandomState(op["seed"])
+                    nb_ = len(op["idx"]) * op["blocks"]
+                    if multi:
+                        n_in_ = U_rx if switched else U_tx
+                        sig_ = np.array([(rs_.randn(Nr if switched else Nt, nb_) if mimo else rs_.randn(nb_)) + 0j for _ in range(n_in_)])
+                    else:
+                        sig_ = (rs_.randn(Nr if switched else Nt, nb_) if mimo else rs_.randn(nb_)) + 0j
+                    try:
+                        ch.corrupt_data_in_freq_domain(sig_, op["fft"], np.array(op["idx"]))
+                        bump(res["probes"], "out_of_range_subcarrier_accepted")
+                    except Exception:       # noqa: BLE001  (which error is the library's business)
+                        bump(res["faults"], "failed-transmission")
+                    log.add("freq_bad", op["fft"], op["idx"])
+                    last_kind = "freq"
                     continue
                 if o == "pathloss_bad":
                     # the statement only needs output == convolution with the REPORTED response afterwards; what the
